@@ -31,6 +31,9 @@ CLAIMS = {
     "C08": ("analytic measure / centroid of generated polygons and extrusions before and after Translate / Rotate / Symmetry applied to the mesh object (generic angles, repeated), observer notification, connectivity unchanged; boundary normals: unit length, closure, flux of the position vector and per-face-class outwardness against the adjacent volume element, as meshed / mirrored / mirrored twice and rotated; embedded surfaces; point location singly and in batches (several points per element, batch size == dim, edge and node points) against polynomial nodal fields on simplices, affine images and general quads/hexas; Calc_projector on linear fields",
             "polynomial degree limited to what the element space contains on its geometry; general quads/hexas judged at 1e-6 (scipy least_squares default tolerance inside the inverse map)",
             "reference-model oracle (analytic geometry, polynomial fields) + pre/post invariant monitor on the mesh motions"),
+    "C09": ("nodal load vectors produced by add_lineLoad / add_surfLoad / add_volumeLoad / add_pressureLoad / add_neumann and the Hermitian beam line load are observed through Bc_vector_Neumann and compared with exact integrals (force resultant and first moments about a random point) of polynomial densities given as constants, nodal arrays and callables, on straight edges, planar faces and whole domains of every element type, for every simulation type accepting the load, with stray nodes in the selection and random thickness",
+            "density degree within the exactness of the element's mass rule; pressure judged by magnitude and collinearity (sign follows the C08 orientation finding)",
+            "reference-model oracle (exact polynomial integrals) on the recorded Neumann vector"),
 }
 
 
